@@ -355,6 +355,22 @@ def run(ctx):
             back = impl_unframe(2, [data], 'close')
             if back != ('ok', payload[0], payload[1:]):
                 ctx.violation('frame-readback/len%%8=%d' % (ln % 8), 'own packet reader returns %r for a framed %d-byte payload' % (back[:2], ln), {'op': 'unframe', 'data': data.hex()})
+    # the second packet builder of the code base (the padding helper of dheat.py, used by its KEXINIT / KEXDH_INIT / GEX_REQUEST builders): same framing rule, every length
+    from ssh_audit.dheat import DHEat
+    import struct as _struct
+    for ln in lens:
+        payload = bytes(ln)
+        try:
+            pad_len, padding = DHEat.get_padding(None, payload)     # the method does not use its instance
+        except Exception as e:  # noqa
+            ctx.violation('dheat-padding/exception', 'DHEat.get_padding raised %s for a %d-byte payload' % (type(e).__name__, ln), {'op': 'dheat-padding', 'len': ln})
+            break
+        data = _struct.pack('>IB', ln + pad_len + 1, pad_len) + payload + padding
+        ctx.evaluations += 1
+        if len(padding) != pad_len or not (4 <= pad_len <= 255) or len(data) % 8 != 0 or len(data) < 16:
+            ctx.violation('dheat-padding/len%%8=%d' % (ln % 8), 'DHEat.get_padding for a %d-byte payload: announces %d padding bytes, returns %d; packet of %d bytes' % (ln, pad_len, len(padding), len(data)), {'op': 'dheat-padding', 'len': ln})
+        elif ln <= 300:
+            add('Z.eqb (pad_len %d) %d' % (ln, pad_len), {'op': 'dheat-padding', 'len': ln}, ('dheat-pad', ln % 8))
     samples.append({'op': 'frame', 'payload': '14aabb', 'impl': impl_frame(b'\x14\xaa\xbb').hex()})
     # ---- unframe: valid, mutated and truncated packets, several segmentations, SSH-1 and SSH-2 ----
     for _ in range(250 if q else 6000):
